@@ -1,7 +1,7 @@
 (* Dispatch.v -- request decoder / response encoder for the extracted model.
    One request = one S-expression (op arg ...); one response = one S-expression. *)
 From Coq Require Import String.
-From Torf Require Import Base Sexp Bencode PyVal Geometry Stream History Convert Validate Export MonList Filesize Regex UrlQuote Magnet.
+From Torf Require Import Base Sexp Bencode PyVal Geometry Stream History Convert Validate Export MonList Filesize Regex UrlQuote Magnet Attr.
 Open Scope Z_scope.
 
 Definition getFile (s : sexp) : option file := getPair getZ getZ s.
@@ -442,6 +442,40 @@ Definition handle_magnet (op : list N) (args : list sexp) : option sexp :=
     match args with [b] => option_map (fun b => HA (unquote_plus b)) (getB b) | _ => None end
   else None.
 
+(* ---- attribute state machine (C09) ---- *)
+Definition getAop (s : sexp) : option aop :=
+  match s with
+  | L [A o] => if atom_is "generate" o then Some AGenerate else if atom_is "other" o then Some AOther else None
+  | L [A o; a] =>
+      if atom_is "piece_size" o then option_map ASetPieceSize (getOptZ a)
+      else if atom_is "min" o then option_map ASetMin (getOptZ a)
+      else if atom_is "max" o then option_map ASetMax (getOptZ a)
+      else None
+  | L [A o; a; b; c] =>
+      if atom_is "layout" o then
+        match getZ a, getZ b, getBool c with Some x, Some y, Some z => Some (ASetLayout x y z) | _, _, _ => None end
+      else None
+  | _ => None
+  end.
+
+Definition ast_sexp (s : ast) : sexp :=
+  L [ZA (a_size s); optZ_sexp (a_plen s);
+     match a_pieces s with Some (l, p) => L [ZA l; ZA p] | None => Sy "none" end;
+     ZA (a_pmin s); ZA (a_pmax s)].
+
+Definition handle_attr (op : list N) (args : list sexp) : option sexp :=
+  if atom_is "attr.run" op then
+    match args with
+    | [ops] => option_map (fun ops => L (List.map (fun rs => L [res_sexp unit_sexp (fst rs); ast_sexp (snd rs)]) (arun ainit ops)))
+                          (getList getAop ops)
+    | _ => None end
+  else if atom_is "attr.calc" op then
+    match args with
+    | [a; b; c] => match getZ a, getZ b, getZ c with
+                   | Some x, Some y, Some z => Some (ZA (calculate_piece_size x y z)) | _, _, _ => None end
+    | _ => None end
+  else None.
+
 Definition handle (req : sexp) : sexp :=
   match req with
   | L (A op :: args) =>
@@ -462,7 +496,11 @@ Definition handle (req : sexp) : sexp :=
                       | None =>
                           match handle_magnet op args with
                           | Some r => r
-                          | None => bad_request
+                          | None =>
+                              match handle_attr op args with
+                              | Some r => r
+                              | None => bad_request
+                              end
                           end
                       end
                   end
